@@ -179,7 +179,7 @@ impl Reporter {
         let mut verdict = Verdict { violations: 0, known_seen: vec![], harness_errors: 0 };
         let dir = verif_dir().join("replays");
         let _ = std::fs::create_dir_all(&dir);
-        let max_reports = 12;
+        let max_reports = 6;
         let groups: Vec<_> = self.groups.values().cloned().collect();
         let mut printed_known: Vec<String> = vec![];
         for (n, (v, judge_name, session, reference)) in groups.into_iter().enumerate() {
@@ -225,7 +225,7 @@ impl Reporter {
                 }
                 continue;
             }
-            let (min_session, min_reference, min_v) = crate::minimise::minimise(&judge_name, &session, reference.as_ref(), &confirmed, Duration::from_secs(if ctx.quick() { 40 } else { 120 }));
+            let (min_session, min_reference, min_v) = crate::minimise::minimise(&judge_name, &session, reference.as_ref(), &confirmed, Duration::from_secs(if ctx.quick() { 25 } else { 90 }));
             let file = ReplayFile {
                 property: min_v.property.clone(),
                 class: min_v.class.clone(),
